@@ -7,6 +7,7 @@ driver runs at most 1 + QS_EXACT_MAX_ITER floating-point stages.
 -/
 import Qsx.Proofs.ApiSound
 import Qsx.Proofs.DriverSound
+import Qsx.Proofs.RatioSound
 
 namespace Qsx.Props.C03
 open Qsx Qsx.Gen
@@ -37,5 +38,61 @@ theorem value_unique {L : LP} {pinf ninf : Rat} {x₁ pi₁ x₂ pi₂ : Array R
 they answer -/
 theorem ladder_bound (P : ILP) (pinf ninf : Rat) (dbl : Stage) (rungs : List Stage) :
     (solve P pinf ninf dbl rungs).stagesUsed ≤ 1 + exactMaxIter := solve_stage_bound P pinf ninf dbl rungs
+
+
+/-! ### the primal phase-II ratio test (ratio.c:264-455, model `Qsx.Ratio`)
+
+UNBOUNDED is the one definitive status the exact solver does not re-check; it is decided by this
+test.  In exact arithmetic (the `mpq` instance: both tolerances 0) and from a basic solution inside
+its bounds, the test's answers are sound statements about the step, for every number of rows. -/
+
+open Qsx.Ratio in
+/-- whatever the comparison of pass 2 answers (i.e. in any arithmetic), the test never ends
+RATIO_FAILED: the row that defined `t_max` always qualifies (fix f07d9ed) -/
+theorem ratio_pII_never_failed (leq : Rat → Rat → Bool) (p : Ratio.Par) (hp : 0 ≤ p.pivtol) (rows : List Ratio.Row) :
+    (pIIWith leq p rows).stat ≠ .failed := pIIWith_never_failed leq p hp rows
+
+open Qsx.Ratio in
+/-- RATIO_UNBOUNDED: every step length up to `inf` keeps every basic variable inside its bounds -/
+theorem ratio_pII_unbounded_ray (p : Ratio.Par) (rows : List Ratio.Row) (hpv : p.pivtol = 0)
+    (hfeas : ∀ r ∈ rows, inBounds p p.pftol r r.x) (h : (pII p rows).stat = .unbounded) :
+    ∀ r ∈ rows, ∀ t, 0 ≤ t → t ≤ p.inf → inBounds p p.pftol r (newx p r t) :=
+  pII_unbounded_sound p rows hpv hfeas h
+
+open Qsx.Ratio in
+/-- RATIO_NOBCHANGE: the entering variable goes to its other bound and nothing leaves its bounds -/
+theorem ratio_pII_flip_feasible (p : Ratio.Par) (rows : List Ratio.Row) (hpv : p.pivtol = 0)
+    (hfeas : ∀ r ∈ rows, inBounds p p.pftol r r.x) (hd : 0 ≤ p.eu - p.el)
+    (h : (pII p rows).stat = .nobchange) :
+    (pII p rows).tz = (if p.incr then p.eu - p.el else -(p.eu - p.el)) ∧ (pII p rows).lindex = -1 ∧
+    ∀ r ∈ rows, inBounds p p.pftol r (newx p r (p.eu - p.el)) :=
+  pII_nobchange_sound p rows hpv hfeas hd h
+
+open Qsx.Ratio in
+/-- RATIO_BCHANGE at tolerance 0: a non-negative step, no bound shift, every basic variable stays
+inside its bounds and the leaving one lands exactly on the bound `lvstat` names -/
+theorem ratio_pII_step_feasible (p : Ratio.Par) (rows : List Ratio.Row) (hpv : p.pivtol = 0) (hpf : p.pftol = 0)
+    (hfeas : ∀ r ∈ rows, inBounds p 0 r r.x) (h : (pII p rows).stat = .bchange) :
+    ∃ t c, 0 ≤ t ∧ (pII p rows).tz = (if p.incr then t else -t) ∧ (pII p rows).boundch = false ∧
+      0 ≤ (pII p rows).lindex ∧ rows[(pII p rows).lindex.toNat]? = some c ∧
+      (pII p rows).pivot = c.y ∧ c.y ≠ 0 ∧
+      (∀ r ∈ rows, inBounds p 0 r (newx p r t)) ∧
+      (((pII p rows).lvstat = Ratio.statLower ∧ c.l ≠ -p.inf ∧ newx p c t = c.l) ∨
+       ((pII p rows).lvstat = Ratio.statUpper ∧ c.u ≠ p.inf ∧ newx p c t = c.u)) :=
+  pII_bchange_sound p rows hpv hpf hfeas h
+
+/-- the hypotheses are satisfiable and the three outcomes occur: two rows, increasing entering
+column; row 0 blocks at 3/2, row 1 at 2 -/
+example :
+    let p : Ratio.Par := { inf := 1000, pivtol := 0, pftol := 0, incr := true, ebounded := false, el := 0, eu := 0 }
+    let rows : List Ratio.Row := [{ y := 2, x := 3, l := 0, u := 1000 }, { y := -1, x := 1, l := -1000, u := 3 }]
+    (Ratio.pII p rows).stat = .bchange ∧ (Ratio.pII p rows).lindex = 0 ∧ (Ratio.pII p rows).tz = 3 / 2 := by
+  decide +kernel
+
+example :
+    let p : Ratio.Par := { inf := 1000, pivtol := 0, pftol := 0, incr := true, ebounded := false, el := 0, eu := 0 }
+    let rows : List Ratio.Row := [{ y := -2, x := 3, l := 0, u := 1000 }]
+    (Ratio.pII p rows).stat = .unbounded := by
+  decide +kernel
 
 end Qsx.Props.C03
